@@ -1553,3 +1553,17 @@ func SpecSegRight(seg *memorySegment) int64 { panic("abstract spec function") }
 //@   requires nonnil: sc != nil && sc.storer != nil
 //@   modifies nothing
 //@   ensures no_range_for_another_history: runId != stId ==> result0 == 0 - 1 && result1 == 0 - 1
+
+// ---- every write of a bidirectional link reaches the site inside a marker transaction (C13) -------
+// The opposite link recognises the tool's writes by the marker that opens their MULTI / EXEC. The sync
+// sender therefore writes a unit's commands through execBisyncUnit only - never directly on the
+// connection, whatever the unit carries (a delay probe is a write like any other at the other site).
+//@ func RedisOutput.sendBisyncSync
+//@   arith int
+//@   properties C13
+//@   requires nonnil: ro != nil && replayWait != nil
+//@   modifies heap
+//@   assert at call Do optional: a_unit_is_never_written_outside_a_marker_transaction: false
+//@   assert at call Send optional: a_unit_is_never_queued_outside_a_marker_transaction: false
+//@   loop 1:
+//@     invariant running: ro != nil && replayWait != nil
